@@ -1266,14 +1266,14 @@ def analyse(f, summaries):
                 why.append('DF=%s' % a.df)
             if why:
                 bad_rets.append((a0, why))
-            else:
-                m = 0
-                for r in range(16):
-                    if a.r[r] == ('E', r):
-                        m |= 1 << r
-                pres &= m
-                mxk = mxk and a.mx
-                b_exit = a
+            # the inferred summary is the intersection over *all* returns (also the offending ones, so that a
+            # failing function still gets a meaningful summary for the dynamic cross-check)
+            m = 0
+            for r in range(16):
+                if a.r[r] == ('E', r):
+                    m |= 1 << r
+            pres &= m
+            mxk = mxk and a.mx
     if rejects:
         a0 = sorted(rejects)[0]
         f.fail = {'kind': 'reject', 'block': a0, 'insn': rejects[a0][0], 'why': rejects[a0][1]}
